@@ -66,8 +66,37 @@ def oracle_lines(ctx, out, label):
             key = l.split("key=")[1].split()[0]
             script = next((x for x in lines[n:] if x.startswith("SCRIPT ")), "")
             ctx.violation(key, l[len("ORACLE-FAIL "):], "%s\n%s\n(run: %s, seed %s)\n" % (l, script, label, ctx.seed))
+        elif l.startswith("CONVERGENCE_SAMPLES"):
+            record_convergence(ctx, l.split()[1:], label)
         elif l.startswith(("DIST", "ORACLE-OK", "CONVERGENCE", "HOSTILE")):
             ctx.corr.setdefault(label, []).append(l)
+
+
+def record_convergence(ctx, samples, label, heartbeat_ms=100):
+    """`kind:ms` samples -> distribution in evidence (coverage.correspondence.convergence and a note)."""
+    if not samples or label == "known":
+        return
+    by = {}
+    for smp in samples:
+        k, ms = smp.rsplit(":", 1)
+        by.setdefault(k or "none", []).append(int(ms))
+    allms = sorted(x for v in by.values() for x in v)
+
+    def q(xs, p):
+        return xs[min(len(xs) - 1, int(p * len(xs)))]
+    hist = {}
+    for x in allms:
+        b = "<=1hb" if x <= heartbeat_ms else "<=2hb" if x <= 2 * heartbeat_ms else "<=5hb" if x <= 5 * heartbeat_ms \
+            else "<=5hb+1s" if x <= 5 * heartbeat_ms + 1000 else "<=5hb+2.5s" if x <= 5 * heartbeat_ms + 2500 else "over"
+        hist[b] = hist.get(b, 0) + 1
+    d = {"heartbeat_ms": heartbeat_ms, "bound_ms": 5 * heartbeat_ms + 2500, "samples": len(allms),
+         "p50_ms": q(allms, 0.5), "p90_ms": q(allms, 0.9), "max_ms": allms[-1], "histogram": hist,
+         "by_last_fault": {k: {"n": len(v), "p50_ms": q(sorted(v), 0.5), "max_ms": max(v)} for k, v in sorted(by.items())},
+         "meaning": "time from the end of the last fault (heal / lookupd restart / peer re-added) until every lookupd's "
+                    "registrations for this nsqd equal nsqd's maps (wall clock, measured, not proved)"}
+    ctx.corr["convergence"] = d
+    ctx.notes.append("convergence after the last fault: n=%d p50=%dms p90=%dms max=%dms (heartbeat %dms, bound %dms); %s" % (
+        d["samples"], d["p50_ms"], d["p90_ms"], d["max_ms"], heartbeat_ms, d["bound_ms"], hist))
 
 
 def judge_sync(ctx, res, label, corr_broken):
@@ -126,9 +155,9 @@ def run(ctx):
         "lookupds (real wire protocol, fault injection), one real in-process nsqlookupd restarted on its ports",
     ]
     ctx.assumptions += [
-        "converges: hypothesis Orderly (NoStaleNotify) on the schedule — no UNREGISTER of a deleted object after the "
-        "REGISTER of a re-created one, no reconnect REGISTER of an object whose UNREGISTER was already consumed, no "
-        "REGISTER of a channel after the UNREGISTER of its exiting topic; each has a Lean witness without it",
+        "converges holds for every schedule (no order hypothesis) on the tree with F14 (connectCallback skips exiting "
+        "objects) and F15 (REGISTER/UNREGISTER from the current state of the name); without either it is false "
+        "(converges_false_without_F14 / _F15)",
         "'within a few heartbeat intervals' is wall-clock: measured by the harness (heartbeat 100 ms; bound "
         "5 heartbeats + 2.5 s of dial/read deadlines), not proved",
         "a stalling lookupd delays lookupLoop by the 1 s deadlines per command (measured, not proved)",
@@ -199,7 +228,8 @@ def run(ctx):
         if rc != 0:
             corr_broken.append("hostile harness exit %s" % rc)
         # (c) known / fixed findings are replayed, not remembered (the F3 replay runs as a subprocess above too)
-        scripts = sorted(glob.glob(os.path.join(ROOT, "corpus", "C16", "known", "*.ops")))
+        scripts = sorted(glob.glob(os.path.join(ROOT, "corpus", "C16", "known", "*.ops")) +
+                         glob.glob(os.path.join(ROOT, "corpus", "C16", "fixed", "*.ops")))
         if scripts:
             rc, out, od = run_stream(ctx, binp, "TestVerifE6Sync", "known", {"VERIF_SCRIPT": ",".join(scripts)}, 300)
             oracle_lines(ctx, out, "known")
